@@ -9,6 +9,8 @@ from engine import boolalg
 from engine.cfg import CFG, EXIT
 from engine.consteval import ConstEval, NotConstant
 from engine.dataflow import ReachingDefs, backward_slice_exprs
+from engine.absint import AbsObj, BoundRepoMethods, ModuleEnv, Term
+from engine.pyinterp import Function, Interp, InterpRaised, Stub, StubCall, Unsupported
 from engine.index import AnalysisError, ClassInfo, FuncInfo, calls_in, const_str, is_self_attr, kwarg, unparse, walk_no_nested
 from rules.common import BILLING_DATA, DAILY_DATA, HOURLY_DATA
 
@@ -185,6 +187,147 @@ def _norm_compare(e: ast.AST) -> Optional[Tuple[str, str, ast.AST]]:
 
 FLIP = {"<": ">", "<=": ">=", ">": "<", ">=": "<=", "==": "==", "!=": "!="}
 NEG = {"<": ">=", "<=": ">", ">": "<=", ">=": "<", "==": "!=", "!=": "=="}
+
+
+class CT(Term):
+    """A recording column / series / scalar of the sufficiency frame: pandas operations build terms."""
+    __hash__ = Term.__hash__
+
+    def __init__(self, op, *args, oracle=None):
+        super().__init__(op, *args)
+        self._oracle = oracle
+
+    def _mk(self, op, *args):
+        orc = self._oracle
+        for a in args:
+            orc = orc or getattr(a, "_oracle", None)
+        return CT(op, *args, oracle=orc)
+
+    def _sorted(self, op, o):
+        a, b = sorted([self, o], key=lambda t: t.key() if isinstance(t, Term) else repr(t))
+        return self._mk(op, a, b)
+
+    def __eq__(self, o): return isinstance(o, Term) and o.key() == self.key()
+    def __lt__(self, o): return self._mk("lt", self, o)
+    def __le__(self, o): return self._mk("le", self, o)
+    def __gt__(self, o): return self._mk("gt", self, o)
+    def __ge__(self, o): return self._mk("ge", self, o)
+    def __and__(self, o): return self._sorted("and", o)
+    __rand__ = __and__
+    def __or__(self, o): return self._sorted("or", o)
+    __ror__ = __or__
+    def __invert__(self): return self._mk("not", self)
+    def __mul__(self, o): return self._sorted("mul", o)
+    __rmul__ = __mul__
+    def __add__(self, o): return self._sorted("add", o)
+    __radd__ = __add__
+    def __sub__(self, o): return self._mk("sub", self, o)
+    def __rsub__(self, o): return self._mk("sub", o, self)
+    def __truediv__(self, o): return self._mk("div", self, o)
+    def __rtruediv__(self, o): return self._mk("div", o, self)
+
+    def notnull(self): return self._mk("notna", self)
+    notna = notnull
+    def isnull(self): return self._mk("isna", self)
+    isna = isnull
+
+    def sum(self, *a, **k):
+        if a or k:
+            raise Unsupported("sum() with arguments on a recording column")
+        return self._mk("sum", self)
+
+    def mean(self, *a, **k):
+        if a or k:
+            raise Unsupported("mean() with arguments on a recording column")
+        return self._mk("mean", self)
+
+    def min(self): return self._mk("min", self)
+    def max(self): return self._mk("max", self)
+    def any(self): return self._mk("any", self)
+    def all(self): return self._mk("all", self)
+    def astype(self, t): return self if t in (int, float, "int", "float") and self.op in ("sum",) else self._mk("astype", self, getattr(t, "__name__", t))
+
+    def _abs_cast(self, name):
+        # int() / float() of a total of whole day counts is that total
+        return self
+
+    def groupby(self, by, **k):
+        if k:
+            raise Unsupported("groupby() with keyword arguments on a recording column")
+        return self._mk("groupby", self, by)
+
+    def apply(self, f):
+        from engine.absint import symbolic_apply
+        if self.op != "groupby":
+            raise Unsupported("apply() on a recording column that is not grouped")
+        r = f(CT("x")) if isinstance(f, Function) else None
+        if not isinstance(r, Term):
+            raise Unsupported("apply() with a function that does not reduce the group to a term")
+        return self._mk("apply", self, r)
+
+    def transform(self, f):
+        raise Unsupported("transform() on a recording column")
+
+    @property
+    def month(self): return self._mk("month", self)
+
+    def __bool__(self):
+        if self._oracle is None:
+            raise Unsupported(f"truth value of the recording term {self.key()[:80]}")
+        return self._oracle.choose(self.key())
+
+
+class CFrame(Stub):
+    def __init__(self, columns, oracle=None):
+        self._columns, self._oracle = list(columns), oracle
+
+    def _col(self, c):
+        if c not in self._columns:
+            raise InterpRaised("KeyError", str(c))
+        return CT(f"col:{c}", oracle=self._oracle)
+
+    def __getitem__(self, c):
+        if isinstance(c, str):
+            return self._col(c)
+        raise Unsupported("frame[...] with a non-column key on the recording frame")
+
+    def __getattr__(self, name):
+        if name.startswith("_"):
+            raise AttributeError(name)
+        if name in self.__dict__.get("_columns", ()):
+            return self._col(name)
+        raise AttributeError(name)
+
+    @property
+    def columns(self):
+        return list(self._columns)
+
+    @property
+    def index(self):
+        return CT("index", oracle=self._oracle)
+
+
+def _valid_days_terms(chk, base, cv, rep):
+    class _Me(AbsObj, BoundRepoMethods):
+        pass
+    it = Interp(step_limit=50_000)
+    stand = {"day_counts": StubCall(lambda ix: CT("daycounts", ix))}
+    me = _Me({base.name, "SufficiencyCriteria"}, is_reporting_data=rep,
+             data=CFrame(["temperature_not_null", "temperature_null", "temperature"] + ([] if rep else ["observed"])))
+    me._bind_repo(chk, base, it, stand)
+    env = ModuleEnv(chk.repo, cv.module, it, stand)
+    try:
+        Function(cv.node, env, it)(me)
+    except InterpRaised as e:
+        return {"raises": e.exc_name}
+    except Unsupported as e:
+        raise AnalysisError(f"{cv.key}: uses an operation outside the modelled subset: {e}")
+    out = {}
+    for k in ("n_valid_days", "n_valid_temperature_days", "n_valid_meter_value_days"):
+        v = me.__dict__.get(k)
+        if v is not None:
+            out[k] = v.key() if isinstance(v, Term) else repr(v)
+    return out
 
 
 def run(chk):
@@ -431,28 +574,61 @@ def run(chk):
         r2.inst(f"predicate|{q}|fraction-definition")
     # -- monthly coverage: (per-month notna().mean() of column) < 0.9 .any()
     MON = {P + "missing_monthly_temperature_data": "temperature", P + "missing_monthly_meter_data": "observed", P + "missing_monthly_ghi_data": "ghi"}
+    from engine.absint import Oracle, explore
     for q, col in MON.items():
         s = site_for(q)
         if s is None:
             r2.require(False, f"predicate|{q}|site", base.module.rel, f"no disqualifying site for `{q}`")
             continue
-        fi, cfg, rd, gs = guards_of(s)
-        ok = False
-        detail = None
-        for t, pol in gs:
-            if pol and isinstance(t, ast.Call) and isinstance(t.func, ast.Attribute) and t.func.attr == "any":
-                nc = _norm_compare(t.func.value)
-                if nc:
-                    lhs, op, rhs = nc
+        fi = s["fi"]
+        owner = hourly if fi.key in {m.key for m in hourly.methods.values()} else base
+        want_tag = f"any(lt(apply(groupby(col:{col}, month(index)), mean(notna(x))), 0.9))"
+        bad = []
+        n_paths = 0
+        for rep in (False, True):
+            for has_col in (True, False):
+                if col == "temperature" and not has_col:
+                    continue  # the temperature column is required by every data class
+                if col == "observed" and has_col == rep:
+                    continue  # baseline frames have usage, reporting frames need not
+                oracle = Oracle()
+                cols = ["temperature", "temperature_null", "temperature_not_null"] + ([col] if has_col and col != "temperature" else [])
+
+                def run():
+                    it = Interp(step_limit=50_000)
+                    stand = {"EEMeterWarning": StubCall(lambda **k: _W(**k))}
+                    me = _Crit({owner.name, "SufficiencyCriteria"}, disqualification=[], warnings=[], is_reporting_data=rep, data=CFrame(cols, oracle))
+                    me._bind_repo(chk, owner, it, stand)
+                    env = ModuleEnv(chk.repo, fi.module, it, stand)
                     try:
-                        thr = const_of(fi, rd, s["stmt"], rhs)
-                    except Exception:
-                        thr = None
-                    sl = " ".join(unparse(x) for x in backward_slice_exprs(rd, s["stmt"], t.func.value.left, 3))
-                    detail = (lhs, op, thr)
-                    ok = op == "<" and thr == 0.9 and f"self.data['{col}']" in sl and "index.month" in sl and "notna().mean()" in sl
-        r2.require(ok, f"predicate|{q}|monthly<0.9", fi.where(s["stmt"]),
-                   f"`{q}` must fire iff any calendar month has notna().mean() of `{col}` < 0.9; found {detail}", sample={"criterion": q, "predicate": list(detail) if detail else None})
+                        Function(fi.node, env, it)(me)
+                    except InterpRaised as e:
+                        return {"raises": e.exc_name}
+                    return {"dq": [w.qualified_name for w in me.disqualification]}
+                try:
+                    outs = explore(run, oracle)
+                except Unsupported as e:
+                    raise AnalysisError(f"{fi.key}: uses an operation outside the modelled subset: {e}")
+                for trace, o in outs:
+                    n_paths += 1
+                    scen = f"reporting={rep}, column {'present' if has_col else 'absent'}"
+                    if "raises" in o:
+                        bad.append((scen, o))
+                        continue
+                    applies = has_col and not (col == "observed" and rep)
+                    if not applies:
+                        if o["dq"]:
+                            bad.append((scen, o))
+                        continue
+                    tags = [t for t, v in trace]
+                    fired = q in o["dq"]
+                    if tags != [want_tag]:
+                        bad.append((scen, {"decides-on": tags}))
+                    elif fired != trace[0][1] or [x for x in o["dq"] if x != q]:
+                        bad.append((scen, {"decision": trace[0][1], "dq": o["dq"]}))
+        r2.require(not bad, f"predicate|{q}|monthly<0.9", fi.where(s["stmt"]),
+                   f"`{q}` must fire iff any calendar month has notna().mean() of `{col}` < 0.9 (interpreted on a recording frame; expected the single decision "
+                   f"{want_tag}); deviations: {bad[:2]}", sample={"criterion": q, "paths": n_paths})
     # -- span (interpreted)
     qspan = P + "incorrect_number_of_total_days"
     bad = []
@@ -515,6 +691,16 @@ def run(chk):
     cv = base.methods.get("_compute_valid_meter_temperature_days")
     if cv is None:
         raise AnalysisError("_compute_valid_meter_temperature_days vanished")
-    txt = unparse(cv.node)
-    r2.require("self.data.observed.notnull()" in txt and "valid_meter_value_rows & valid_temperature_rows" in txt and "day_counts(self.data.index)" in txt,
-               "definition|valid-days", cv.where(), "valid days must be (usage present) & (temperature coverage sufficient), weighted by each row's day count")
+    # interpreted on recording columns: the three day totals are read off as terms over the frame's columns
+    for rep in (False, True):
+        o = _valid_days_terms(chk, base, cv, rep)
+        cover = "gt(div(col:temperature_not_null, add(col:temperature_not_null, col:temperature_null)), 0.9)"
+        days = "daycounts(index)"
+        want = {"n_valid_temperature_days": f"sum(mul({days}, {cover}))",
+                "n_valid_days": f"sum(mul({days}, {cover}))" if rep else f"sum(mul(and({cover}, notna(col:observed)), {days}))"}
+        if not rep:
+            want["n_valid_meter_value_days"] = f"sum(mul({days}, notna(col:observed)))"
+        bad = {k: o.get(k) for k, v in want.items() if o.get(k) != v}
+        r2.require(not bad, f"definition|valid-days|{'reporting' if rep else 'baseline'}", cv.where(),
+                   f"valid days must be (usage present, baseline only) & (hourly temperature coverage of the row > 0.9), weighted by each row's day count; "
+                   f"interpreted ({'reporting' if rep else 'baseline'}): {bad} (expected {({k: want[k] for k in bad})})", sample={"reporting": rep, "totals": sorted(want)})
